@@ -227,9 +227,47 @@ def run_memrow(spec, out):
                 a = rng.randrange(0, w + 1)
                 b = rng.randrange(a, w + 1)
                 v = rng.choice([0, -1, 1, rng.randrange(-(1 << (w + 1)), 1 << (w + 1))])
-                kind = "row" if signed_ else rng.choice(["row", "slice", "part"])
+                kind = "row" if signed_ else rng.choice(["row", "slice", "part", "multi", "multi"])
                 out["evaluations"] += 1
-                if kind == "row":
+                if kind == "multi":
+                    # a concatenation of disjoint pieces, several of them in the same row
+                    pieces = []
+                    free = {j: list(range(w)) for j in range(depth)}
+                    for _ in range(rng.randrange(2, 5)):
+                        j = i if rng.random() < 0.7 else rng.randrange(depth)
+                        if not free[j]:
+                            continue
+                        lo_ = rng.choice(free[j])
+                        hi_ = lo_
+                        while hi_ in free[j] and hi_ - lo_ < 3 and (hi_ == lo_ or rng.random() < 0.6):
+                            free[j].remove(hi_)
+                            hi_ += 1
+                        pieces.append((j, lo_, hi_))
+                    tgt = Cat(*[ma.data[j][lo_:hi_] for (j, lo_, hi_) in pieces])
+                    ops.append((kind, pieces, v))
+                    try:
+                        ctx.set(tgt, v)
+                    except Exception as ex:
+                        if exc_origin(ex) != "repo":
+                            raise
+                        viol.append({"mechanism": f"memrow-set-exception:{type(ex).__name__}",
+                                     "detail": {"shape": [w, signed_], "depth": depth, "op": ops[-1], "exception": repr(ex)}})
+                        return
+                    pos = 0
+                    per_row = {}
+                    for (j, lo_, hi_) in pieces:
+                        mk, dt = per_row.get(j, (0, 0))
+                        piece_mask = (1 << hi_) - (1 << lo_)
+                        bits = (v >> pos) & ((1 << (hi_ - lo_)) - 1)
+                        per_row[j] = (mk | piece_mask, dt | (bits << lo_))
+                        pos += hi_ - lo_
+                    for j, (mk, dt) in per_row.items():
+                        ctx.set(wp.addr, j)
+                        ctx.set(wp.data, dt)
+                        ctx.set(wp.en, mk)
+                        ctx.set(cd.clk, 1); ctx.set(cd.clk, 0)
+                    ctx.set(wp.en, 0)
+                elif kind == "row":
                     tgt = ma.data[i]; lo, hi = 0, w
                 elif kind == "slice":
                     tgt = ma.data[i][a:b]; lo, hi = a, b
@@ -238,22 +276,23 @@ def run_memrow(spec, out):
                     pw = rng.randrange(0, 4)
                     tgt = ma.data[i].bit_select(off, pw); lo, hi = off, min(off + pw, w)
                     hi = max(hi, lo)
-                ops.append((kind, i, lo, hi, v))
-                try:
-                    ctx.set(tgt, v)
-                except Exception as ex:
-                    if exc_origin(ex) != "repo":
-                        raise
-                    viol.append({"mechanism": f"memrow-set-exception:{type(ex).__name__}",
-                                 "detail": {"shape": [w, signed_], "depth": depth, "op": ops[-1], "exception": repr(ex)}})
-                    return
-                # the circuit: write port with bit enables
-                mask = ((1 << hi) - (1 << lo)) if lo < w else 0
-                ctx.set(wp.addr, i)
-                ctx.set(wp.data, ((v << lo) & ((1 << w) - 1)))
-                ctx.set(wp.en, 1 if signed_ else mask)
-                ctx.set(cd.clk, 1); ctx.set(cd.clk, 0)
-                ctx.set(wp.en, 0)
+                if kind != "multi":
+                    ops.append((kind, i, lo, hi, v))
+                    try:
+                        ctx.set(tgt, v)
+                    except Exception as ex:
+                        if exc_origin(ex) != "repo":
+                            raise
+                        viol.append({"mechanism": f"memrow-set-exception:{type(ex).__name__}",
+                                     "detail": {"shape": [w, signed_], "depth": depth, "op": ops[-1], "exception": repr(ex)}})
+                        return
+                    # the circuit: write port with bit enables
+                    mask = ((1 << hi) - (1 << lo)) if lo < w else 0
+                    ctx.set(wp.addr, i)
+                    ctx.set(wp.data, ((v << lo) & ((1 << w) - 1)))
+                    ctx.set(wp.en, 1 if signed_ else mask)
+                    ctx.set(cd.clk, 1); ctx.set(cd.clk, 0)
+                    ctx.set(wp.en, 0)
                 rows_a = [ctx.get(ma.data[j]) for j in range(depth)]
                 rows_b = [ctx.get(mb.data[j]) for j in range(depth)]
                 ports_a = []
